@@ -5,6 +5,7 @@ import RbV.Model.Kasai
 import RbV.Model.Sus
 import RbV.Model.Transform
 import RbV.Model.SampledSA
+import RbV.Model.LFMulti
 /-!
 # C03 — suffix array = sorted permutation of all suffixes; LCP; shortest unique substrings
 
@@ -178,5 +179,17 @@ example : (List.range 6).map (Sampled.sampledGet (bwtRef [99, 97, 98, 99, 97, 36
       (fun r c => OccM.occGet (OccM.occNewLoop (bwtRef [99, 97, 98, 99, 97, 36] [5, 4, 1, 2, 3, 0]) 3 c)
         (bwtRef [99, 97, 98, 99, 97, 36] [5, 4, 1, 2, 3, 0]) 3 r c))
     = [some 5, some 4, some 1, some 2, some 3, some 0] := by decide
+
+
+/-- **… and for every text of the property's quantifier** (any number of sentinel occurrences, the sentinel being
+the smallest symbol): for every array accepted by `checkSA`, `get(i) = sa[i]` at every row, for every sampling rate
+and every Occ rate.  The LF step is exact for every row whose BWT symbol is not the sentinel
+(`LFMulti.lf_mapping_multi`); the other rows are answered from `extra_rows`. -/
+theorem sampled_get_exact_all (t sa : List Nat) (s k m : Nat) (hc : checkSA t sa = true)
+    (hmin : ∀ p, p < t.length → sentinelOf t ≤ t.getD p 0)
+    (hs : 0 < s) (hk : 0 < k) (hm : ∀ x ∈ t, x < m) (i : Nat) (hi : i < t.length) :
+    Sampled.sampledGet (bwtRef t sa) sa s (sentinelOf t) (OccM.lessModel (bwtRef t sa) m)
+      (fun r c => OccM.occGet (OccM.occNewLoop (bwtRef t sa) k c) (bwtRef t sa) k r c) i = some (sa.getD i 0) :=
+  LFMulti.sampled_get_correct_multi t sa hc hmin s k hs hk m hm i hi
 
 end RbV.Thm.C03
